@@ -364,6 +364,34 @@ func c15Parse(c *core.Case, o *core.Outcome) {
 			fail("limits not mapped one-to-one: got scenario=%q max-duration=%v concurrency=%d max-iterations=%d ignore-dropped=%v max-failures=%d max-failures-rate=%d", rs.Scenario, rs.MaxDuration, rs.Concurrency, rs.MaxIterations, rs.IgnoreDropped, mf, mfr)
 			return
 		}
+		if stageStart == nil {
+			// the same document through the command's own builder (`run file <path>`): the trigger it yields
+			// carries the limits as run options and the total duration
+			if path, terr := engine.TempYAML(yml); terr == nil {
+				b := file.Rate(engine.NewOutput(engine.NewLog(), false))
+				perr := b.Flags.Parse([]string{path})
+				var trig *api.Trigger
+				if perr == nil {
+					trig, perr = b.New(b.Flags)
+				}
+				os.Remove(path)
+				if perr != nil {
+					fail("the file builder rejected the document ParseConfigFile accepts: %v", perr)
+					return
+				}
+				op := trig.Options
+				if op.Scenario != scen || op.MaxDuration != maxDur || op.Concurrency != limConc || op.MaxIterations != maxIter || op.IgnoreDropped != ignore || op.MaxFailures != wantMF || op.MaxFailuresRate != wantMFR {
+					fail("run options of the trigger built from the file are not the file's limits: scenario=%q max-duration=%v concurrency=%d max-iterations=%d ignore-dropped=%v max-failures=%d max-failures-rate=%d; the file says %q %v %d %d %v %d %d",
+						op.Scenario, op.MaxDuration, op.Concurrency, op.MaxIterations, op.IgnoreDropped, op.MaxFailures, op.MaxFailuresRate, scen, maxDur, limConc, maxIter, ignore, wantMF, wantMFR)
+					return
+				}
+				if trig.Duration != total {
+					fail("the trigger built from the file reports total duration %v, the stage durations sum to %v", trig.Duration, total)
+					return
+				}
+				o.AddObs("plans_through_builder", 1)
+			}
+		}
 		for i, k := range kept {
 			st, got := stages[k], rs.Stages[i]
 			if got.StageDuration != st.dur {
